@@ -1,2 +1,101 @@
-(* statements land with the deep pass; see Proofs *)
-Require Import Model.Base.
+(* C04 — fill_contiguous: colour k of the stream belongs to point k (row-major) of the REQUESTED
+   rectangle; only the visible points are written, each with its own colour; a short stream leaves the
+   rest untouched, surplus colours are ignored. Statements only; proofs in Proofs/ClipP.v (the
+   TakeSkip / clipping arithmetic) and Proofs/ProgramP.v (what the controller decodes). *)
+Require Import Model.Base Model.Orient Model.Dcs Model.Events Model.Builder Model.Rect Model.Batch Model.Display.
+Require Import Oracle.Spec Oracle.Controller Oracle.DrawSpec.
+Require Import Proofs.DcsP Proofs.WindowP Proofs.CtlP Proofs.DrawP Proofs.ClipP Proofs.BatchP Proofs.OrientStateP
+               Proofs.ProgramP.
+Open Scope Z_scope.
+
+(* the intersection / skip / TakeSkip code, for ANY valid rectangle and any stream, in any build
+   profile: one set_pixels on the visible window with the colours `clip_colors` selects — row j of the
+   visible part takes stream indices ((vy0 - ry) + j) * rw + (vx0 - rx) ... + (vx1 - vx0) — or nothing *)
+Theorem C04_clip_colors : forall (c : ctx) (o : opts) (a : rect) (lw lh : Z) (cs : list Z),
+  rect_valid a -> 1 <= lw <= 65535 -> 1 <= lh <= 65535 ->
+  lsize o = (lw, lh) -> rw a * rh a < 2 ^ 32 ->
+  fill_contiguous c o a cs =
+  (if visible a lw lh
+   then set_pixels c o (vx0 a) (vy0 a) (vx1 a lw - 1) (vy1 a lh - 1) (clip_colors a lw lh cs)
+   else wret tt).
+Proof. exact fill_contiguous_clip. Qed.
+
+(* those colours, laid row-major over the visible window (what the controller does with the burst),
+   are the specification's rows: point (x, y) of the visible part gets stream colour
+   (y - ry) * rw + (x - rx), as far as the first rw * rh colours of the stream last *)
+Theorem C04_stream_rows : forall enc p o (a : rect) (lw lh : Z) (cs : list Z),
+  rect_valid a ->
+  zip_rows enc p o (vx0 a) (vy0 a) (Z.to_nat (vx1 a lw - 1 - vx0 a + 1)) (Z.to_nat (vy1 a lh - 1 - vy0 a + 1))
+           (clip_colors a lw lh cs)
+  = contig_rows enc p o a (vx0 a) (vx1 a lw) (vy0 a) (Z.to_nat (vy1 a lh - vy0 a)) (firstnZ (rw a * rh a) cs).
+Proof. exact zip_rows_clip_colors. Qed.
+
+(* end to end: the call returns Ok, the controller's history grows by exactly `spec_fill_contig`
+   (Oracle/DrawSpec.v), no anomaly is flagged (the burst never overruns the window), one window iff
+   something is visible *)
+Theorem C04_placement : forall c st k (r : rect) (cs : list Z),
+  valid_cfg c (d_opts st) -> madctl_ok st -> ctl_matches c (d_opts st) k ->
+  rect_valid r -> rw r * rh r < 2 ^ 32 ->
+  let o := d_opts st in
+  let t := fst (fst (step c st (PFillContig r cs))) in
+  snd (fst (step c st (PFillContig r cs))) = ROk /\
+  writes (ctl_run k t) = writes k ++ spec_fill_contig (c_enc c) (panel_of o) (o_orient o) r cs /\
+  k_flags (ctl_run k t) = k_flags k /\
+  count_ramwr t = (if visible r (fst (lsize o)) (snd (lsize o)) then 1 else 0).
+Proof. exact fill_contig_placement. Qed.
+
+(* colours beyond the area are never used *)
+Theorem C04_surplus_ignored : forall (a : rect) (lw lh : Z) (cs : list Z),
+  rect_valid a ->
+  clip_colors a lw lh cs = clip_colors a lw lh (firstnZ (rw a * rh a) cs).
+Proof. exact clip_colors_surplus. Qed.
+
+(* never more colours than the window holds *)
+Theorem C04_burst_fits : forall (a : rect) (lw lh : Z) (cs : list Z),
+  visible a lw lh = true ->
+  Z.of_nat (length (clip_colors a lw lh cs)) <= (vx1 a lw - vx0 a) * (vy1 a lh - vy0 a).
+Proof. exact clip_colors_length. Qed.
+
+(* ---- non-vacuity. A 4 x 3 rectangle at (-2, -1) overlapping the top-left corner of a 100 x 50
+   display at offset (3, 7), native orientation; colour k = k (the stream encodes its own index; 14
+   colours for 12 points). Visible: columns 2..3 of rows 1..2, i.e. stream indices 6 7 10 11. ---- *)
+Definition ex_c := {| c_md := Debug; c_batch := true; c_fw := 240; c_fh := 320; c_enc := fun v => [v];
+                      c_rowcap := 50; c_blockcap := 100 |}.
+Definition ex_o r m := {| o_bgr := false; o_orient := {| rotn := r; mir := m |}; o_inv := false;
+                          o_btt := false; o_rtl := false; o_w := 100; o_h := 50; o_ox := 3; o_oy := 7 |}.
+Definition ex_st r m := fresh_state (ex_o r m).
+Definition ex_k r m := ctl_run (power_on 240 320) [ECmd 0x36 [madctl_of_opts (ex_o r m)]].
+Definition ex_r := {| rx := -2; ry := -1; rw := 4; rh := 3 |}.
+
+Example C04_ex_hyps : forall r m,
+  valid_cfg ex_c (d_opts (ex_st r m)) /\ madctl_ok (ex_st r m) /\
+  ctl_matches ex_c (d_opts (ex_st r m)) (ex_k r m) /\ rect_valid ex_r /\ rw ex_r * rh ex_r < 2 ^ 32.
+Proof.
+  intros r m.
+  split; [unfold valid_cfg; cbn; lia|]. split; [reflexivity|].
+  split; [unfold ctl_matches; destruct r, m; vm_compute; repeat split|].
+  unfold rect_valid, ex_r. cbn [rx ry rw rh]. change (2 ^ 31) with 2147483648. change (2 ^ 32) with 4294967296. lia.
+Qed.
+
+Example C04_ex_corner :
+  spec_op_writes (fun v => [v]) (panel_of (ex_o D0 false)) (o_orient (ex_o D0 false)) (PFillContigGen ex_r 14) =
+  [WPx 3 7 [6]; WPx 4 7 [7]; WPx 3 8 [10]; WPx 4 8 [11]] /\
+  writes (ctl_run (ex_k D0 false) (exec_trace ex_c (ex_st D0 false) [PFillContigGen ex_r 14])) =
+  [WPx 3 7 [6]; WPx 4 7 [7]; WPx 3 8 [10]; WPx 4 8 [11]] /\
+  clip_colors ex_r 100 50 (gen_colors 14) = [6; 7; 10; 11].
+Proof. vm_compute. repeat split. Qed.
+
+(* the same call in all eight orientations; a stream that ends inside the visible part (8 colours:
+   indices 6 7 only); the fast path (nothing clipped) *)
+Example C04_ex_all_orientations :
+  forallb (fun r => forallb (fun m =>
+    list_eqb wr_eqb
+      (writes (ctl_run (ex_k r m) (exec_trace ex_c (ex_st r m)
+                 [PFillContigGen ex_r 14; PFillContigGen ex_r 8; PFillContigGen {| rx := 1; ry := 1; rw := 3; rh := 2 |} 5])))
+      (spec_prog_writes (fun v => [v]) (panel_of (ex_o r m)) (o_orient (ex_o r m))
+                 [PFillContigGen ex_r 14; PFillContigGen ex_r 8; PFillContigGen {| rx := 1; ry := 1; rw := 3; rh := 2 |} 5]))
+    [false; true]) [D0; D90; D180; D270] = true /\
+  length (spec_prog_writes (fun v => [v]) (panel_of (ex_o D90 true)) (o_orient (ex_o D90 true))
+            [PFillContigGen ex_r 14; PFillContigGen ex_r 8; PFillContigGen {| rx := 1; ry := 1; rw := 3; rh := 2 |} 5])
+  = 11%nat.
+Proof. vm_compute. split; reflexivity. Qed.
